@@ -38,6 +38,11 @@ class SimForkPool:
                         c.close()
                     sim.role = f"W{w}"
                     sim.crash_at = None
+                    try:
+                        from .executor import die_with_parent
+                        die_with_parent()
+                    except Exception:
+                        pass
                     _restart_probes()
                     if initializer:
                         initializer(*initargs)
